@@ -1,11 +1,15 @@
 package engines
 
 import (
+	"context"
 	"encoding/json"
 	"fmt"
 	"runtime"
 	"runtime/debug"
 	"strings"
+	"sync/atomic"
+
+	flyt "github.com/mark3labs/flyt"
 )
 
 func init() {
@@ -160,7 +164,12 @@ func runC06(c *Cfg) {
 		for j := range it {
 			it[j].K = 1 + rg.IntN(2)
 		}
-		return &BatchCase{Family: "random", N: n, C: cc, Budget: 1, Items: it, Shape: "results", Build: "builder", ExecStyle: []string{"result", "any"}[i%2], Gated: true, Policy: "random", PSeed: rg.Uint64()}
+		cs := &BatchCase{Family: "random", N: n, C: cc, Budget: 1 + i%3, Items: it, Shape: "results", Build: []string{"builder", "option-then-builder"}[(i/2)%2], ExecStyle: []string{"result", "any"}[i%2], Gated: true, Policy: "random", PSeed: rg.Uint64()}
+		if i%4 == 0 {
+			cs.ErrResult = true // failures reported as (NewErrorResult(e), nil): the error state must reach the slot as it is
+			cs.C = rg.IntN(5)
+		}
+		return cs
 	}, func(i int, cs *BatchCase, o *BatchObs) {
 		r.Count("random.runs", 1)
 		if cs.N > 1 && cs.C > 1 {
@@ -237,6 +246,22 @@ func runC06(c *Cfg) {
 	}
 	for n := 0; n <= 64; n++ { // sequential, every size
 		sc = append(sc, &BatchCase{Family: "sequential", N: n, C: 0, Budget: 1, Items: altItems(n), Shape: "results", Build: "builder", ExecStyle: "result"})
+	}
+	// items with identical payloads are still separate items: each is executed, each slot holds its own outcome
+	for _, cc := range []int{0, 1, 3} {
+		for _, kind := range []string{"ints", "strings", "results", "any"} {
+			if !c.Mine(cc) {
+				continue
+			}
+			n, calls, distinct, lenR := dupPayloadRun(kind, cc)
+			r.Eval()
+			r.Count("dup_payload.runs", 1)
+			dc := map[string]any{"family": "duplicate-payloads", "kind": kind, "c": cc, "n": n}
+			if calls != n || distinct != n || lenR != n {
+				r.Violate("C06", "C06:duplicate-payloads", fmt.Sprintf("%d items of which several carry the same payload (%s, concurrency %d): exec ran %d times, post got %d results holding %d distinct outcomes — every item is processed and has its own outcome", n, kind, cc, calls, lenR, distinct), dc)
+			}
+			r.Nontrivial(fmt.Sprintf("dup %s %d", kind, cc))
+		}
 	}
 	gatedLoop(c, len(sc), func(i int) *BatchCase { return sc[i] }, func(i int, cs *BatchCase, o *BatchObs) {
 		r.Count("shape.runs", 1)
@@ -346,6 +371,9 @@ func runC07(c *Cfg) {
 			cs.SleepUs = 20
 		}
 		cs.CtxLike = rg.IntN(4) == 0 // per-attempt timeouts: ordinary failures as far as the batch is concerned
+		if i%9 == 5 && cs.Shape == "results" {
+			cs.Shape, cs.ExecStyle = "results-with-errors", "result" // items that arrive as error Results are processed like any other
+		}
 		if i%7 == 3 {
 			// the same node object was run before on a larger batch and the caller kept that run's result list
 			pn := n + 1 + rg.IntN(8)
@@ -491,6 +519,7 @@ func runC09(c *Cfg) {
 						if variant == 1 && cc > 1 {
 							cs.Policy = "holdfail"
 						}
+						cs.CtxLike = idx%5 == 0 // a per-item timeout is an ordinary failure: it stops the batch like any other
 						cases = append(cases, cs)
 						idx++
 					}
@@ -518,6 +547,23 @@ func runC09(c *Cfg) {
 		if cs.Stop && unexec > 0 && cs.C > 1 && r.SampleWanted("stop") {
 			r.Sample("stop", map[string]any{"case": cs, "attempts": o.Attempts, "slots": o.Slots, "released": completionOrder(o)})
 		}
+	}, "C09")
+	// cancellation with the other in-flight items held parked and a 150 ms dwell: whatever post is given for items
+	// that are still inside exec, or were never started, must not look like a success
+	var cd []*BatchCase
+	for _, cc := range []int{1, 2, 3} {
+		for _, stop := range []bool{false, true} {
+			n := 3*cc + 3
+			it := make([]ItemScript, n)
+			for j := range it {
+				it[j].K = 1
+			}
+			cd = append(cd, &BatchCase{Family: "cancel-dwell", N: n, C: cc, Stop: stop, SetMode: true, Budget: 1, Items: it, Shape: "results", Build: "builder", ExecStyle: "result", Gated: true, Policy: "holdfail", DwellMs: 150, Cancel: &CancelSpec{Kind: "cancel", Item: 0, Attempt: 1}})
+		}
+	}
+	gatedLoop(c, len(cd), func(i int) *BatchCase { return cd[i] }, func(i int, cs *BatchCase, o *BatchObs) {
+		r.Count("cancel_dwell.runs", 1)
+		r.Nontrivial(fmt.Sprintf("cd %d %d %v", cs.N, cs.C, cs.Stop))
 	}, "C09")
 	// free-running stop-mode runs with many failures
 	nr := c.Pick(300, 20000)
@@ -561,6 +607,13 @@ func runC11(c *Cfg) {
 								it[j].K = 1
 							}
 							cases = append(cases, &BatchCase{Family: "pre", N: n, C: cc, Stop: stop, SetMode: true, Budget: budget, Items: it, Shape: "results", Build: "builder", ExecStyle: "result", Gated: true, Policy: "first", WaitHour: hour, Cancel: &CancelSpec{Kind: k}})
+						}
+						if !hour {
+							it := make([]ItemScript, n)
+							for j := range it {
+								it[j].K = 1
+							}
+							cases = append(cases, &BatchCase{Family: "in-prep", N: n, C: cc, Stop: stop, SetMode: true, Budget: budget, Items: it, Shape: "results", Build: []string{"builder", "options"}[idx%2], ExecStyle: "result", Gated: true, Policy: "first", Cancel: &CancelSpec{Kind: []string{"cancel", "deadline", "cause"}[idx%3], InPrep: true}})
 						}
 						for item := 0; item < n; item++ {
 							for att := 1; att <= budget; att++ {
@@ -656,4 +709,60 @@ func runC11(c *Cfg) {
 			r.HighWater("free.during_wait_return_ms", o.WallNs/1e6)
 		}
 	}, "C11")
+}
+
+// dupPayloadRun runs a batch whose items repeat payload values; every exec call returns a fresh outcome.
+func dupPayloadRun(kind string, cc int) (n, calls, distinct, lenR int) {
+	vals := []int{0, 1, 0, 2, 1, 0, 3, 3}
+	n = len(vals)
+	var callCtr atomic.Int64
+	var got []flyt.Result
+	exec := func(ctx context.Context, v any) (any, error) { return int(callCtr.Add(1)), nil }
+	post := func(ctx context.Context, s *flyt.SharedStore, items, results []flyt.Result) (flyt.Action, error) {
+		got = append([]flyt.Result(nil), results...)
+		return "done", nil
+	}
+	var node flyt.Node
+	switch kind {
+	case "results":
+		node = flyt.NewBatchNode().WithBatchConcurrency(cc).WithExecFuncAny(exec).WithPostFunc(post).
+			WithPrepFunc(func(ctx context.Context, s *flyt.SharedStore) ([]flyt.Result, error) {
+				r := make([]flyt.Result, n)
+				for i, v := range vals {
+					r[i] = flyt.NewResult(v)
+				}
+				return r, nil
+			})
+	default:
+		prep := func(ctx context.Context, s *flyt.SharedStore) (any, error) {
+			switch kind {
+			case "ints":
+				return append([]int(nil), vals...), nil
+			case "strings":
+				o := make([]string, n)
+				for i, v := range vals {
+					o[i] = fmt.Sprint("p", v)
+				}
+				return o, nil
+			}
+			o := make([]any, n)
+			for i, v := range vals {
+				o[i] = v
+			}
+			return o, nil
+		}
+		bn := flyt.NewBatchNode(flyt.WithPrepFuncAny(prep), flyt.WithExecFuncAny(exec), flyt.WithBatchConcurrency(cc)).WithPostFunc(post)
+		node = bn
+	}
+	func() {
+		defer func() { recover() }()
+		_, _ = flyt.Run(context.Background(), node, flyt.NewSharedStore())
+	}()
+	seen := map[int]bool{}
+	for _, r := range got {
+		if v, ok := r.Value().(int); ok && !r.IsError() {
+			seen[v] = true
+		}
+	}
+	return n, int(callCtr.Load()), len(seen), len(got)
 }
